@@ -251,19 +251,26 @@ def classOf (lang : Lang) (pos : Pos) (name : Str) : Bool :=
   | .en, .Adv => name.head? == some 'b'
   | _, _ => false
 
-/-- the constructor states of entries without `n` of their own, for which `DistinctRows` is PROVED of every
-    generated table of the class (`distinct_rows_tbl`): French nouns of lexicon gender `x`, or of the gender that
-    every row of the table carries; English nouns countable or not; adjectives and adverbs with the defaults.
-    (A French noun of gender `m` in a table with feminine rows would be listed WITHOUT options under the feminine
-    forms: `genExp`'s last `else`. No lexicon entry is like that — the driver evaluates `DistinctRows` on the
-    actual constructor state of every entry.) -/
+/-- every form of the table exists in gender `g` (a French noun of fixed gender `g` can use the table) -/
+def genderCovers (tb : Table) (g : String) : Bool :=
+  tb.rows.all (fun d => tb.rows.any (fun d' => d'.get .g == some (fvStr g) && d'.val == d.val))
+
+/-- the constructor states for which `DistinctRows` is PROVED of every generated table of the class
+    (`distinct_rows_tbl`): French nouns of lexicon gender `x`, or of a gender in which every form of the table
+    exists; English nouns of every lexicon gender (absent, `m`, `f`, `x`), countable or not; adjectives and adverbs
+    with the defaults.  (A French noun of gender `m` in a table with a feminine-only form would be listed WITHOUT
+    options under that form — `genExp`'s last `else` — and no lexicon entry is like that: the driver evaluates
+    `DistinctRows` on the actual constructor state of every entry.) -/
 def stdCtors (lang : Lang) (pos : Pos) (name : Str) (tb : Table) : List Ctor :=
   let n : FV := if pos = .N ∧ name ∈ alwaysPlural lang then fvStr "p" else fvStr "s"
   match lang, pos with
   | .fr, .N =>
-    ((["m", "f"].filter (fun g => tb.rows.all (fun d => d.get .g == some (fvStr g)))) ++ ["x"]).map
+    ((["m", "f"].filter (genderCovers tb)) ++ ["x"]).map
       (fun g => { g := fvStr g, n := n, lexG := some (.str g.toList) })
-  | .en, .N => ["yes", "no", "both"].map (fun k => { g := fvStr "n", n := n, cnt := some (.str k.toList) })
+  | .en, .N =>
+    ["yes", "no", "both"].flatMap (fun k =>
+      ({ g := fvStr "n", n := n, cnt := some (.str k.toList) } : Ctor) ::
+      ["m", "f", "x"].map (fun g => { g := fvStr g, n := n, lexG := some (.str g.toList), cnt := some (.str k.toList) }))
   | .fr, .A => [{ g := fvStr "m", n := fvStr "s" }]
   | .en, .A => [{ g := fvStr "n", n := fvStr "s" }]
   | _, .Adv => [{ g := .none, n := .none }]
@@ -280,8 +287,11 @@ def distinctFailures (lang : Lang) (rules : Decl.Rules) : List (Str × Pos × Ct
 
 /-! ## what the driver reports per entry and per table (filled in below as the theorems need it) -/
 
-def entryWF (lang : Lang) (conj : Conj.Rules) (_decl : Decl.Rules) (_lex : Lex) (lemma : Str)
-    (verb : Option Conj.Verb) (_entry : List (Str × EVal)) : List String :=
+/-- the hypotheses of `expandConj_sound_*` and `expandDecl_sound` evaluated on one real lexicon entry: the names of
+    those that fail (`info:` items are not hypotheses: they say that the entry's constructor state is not one of
+    the standard ones for which `DistinctRows` is kernel-proved, so that for this entry it is only evaluated) -/
+def entryWF (lang : Lang) (conj : Conj.Rules) (decl : Decl.Rules) (lex : Lex) (lemma : Str)
+    (verb : Option Conj.Verb) (entry : List (Str × EVal)) : List String :=
   let v : List String := match verb with
     | none => []
     | some v =>
@@ -291,10 +301,82 @@ def entryWF (lang : Lang) (conj : Conj.Rules) (_decl : Decl.Rules) (_lex : Lex) 
         (if (match lang with | .en => wfConjEn tb | .fr => wfConjFr tb) then [] else ["conj:table-shape"]) ++
         (if endsWith lemma tb.ending then [] else ["conj:ending-not-suffix"]) ++
         (if noLeadSpace lemma then [] else ["conj:lemma-leading-space"])
-  v
+  let d : List String := entry.flatMap (fun (posS, val) =>
+    match posOf? posS, val with
+    | some pos, .dict e =>
+      if pos = .N ∨ pos = .A ∨ pos = .Adv then
+        match lookup "tab".toList e with
+        | some (.str name) =>
+          match lookup name decl with
+          | none => []                                  -- not a declension table: the bare lemma is listed
+          | some tb =>
+            let tag := "decl:" ++ String.ofList posS ++ ":"
+            let c := ctorOf decl lex lang pos lemma e
+            (if endsWith lemma tb.ending then [] else [tag ++ "ending-not-suffix"]) ++
+            (if noLeadSpace lemma then [] else [tag ++ "lemma-leading-space"]) ++
+            (if ctorOK decl lex lang pos lemma name (dropRight lemma tb.ending.length) e c then []
+             else [tag ++ "constructor-state"]) ++
+            (if DistinctRows lang pos name tb c then [] else [tag ++ "distinct-rows"]) ++
+            (if classOf lang pos name && (stdCtors lang pos name tb).contains c then []
+             else ["info:" ++ tag ++ "non-standard-constructor-state"])
+        | _ => []
+      else []
+    | _, _ => [])
+  v ++ d
 
+/-! ## closed classes (determiners, pronouns): the shipped paradigms -/
+
+/-- the environment of the shipped data: generated tables, the auxiliaries' entries, the shipped pronoun paradigms -/
+def genEnv (lang : Lang) : Env :=
+  { lang := lang
+    conj := match lang with | .en => Gen.ConjEn.tables | .fr => Gen.ConjFr.tables
+    decl := match lang with | .en => Gen.DeclEn.tables | .fr => Gen.DeclFr.tables
+    en := { will := Gen.ConjEn.will, have_ := Gen.ConjEn.have_ }
+    fr := { avoir := Gen.ConjFr.avoir, etre := Gen.ConjFr.etre, reflPro := ConjFr.reflProFr,
+            tonicPro := ConjFr.tonicProFr } }
+
+/-- the parts of speech of a determiner / pronoun table (`pn…`: pronouns; `d…`: determiners, also used by pronouns) -/
+def closedPos (name : Str) : List Pos :=
+  if name.take 2 = "pn".toList then [.Pro] else if name.head? = some 'd' then [.D, .Pro] else []
+
+/-- the pairs of the expansion of the word whose lemma is the table's own ending (`le`, `mon`, `moi`, `me`, `on`, … —
+    the closed-class words are the endings of their tables) that the model does NOT realize to their form -/
+def closedBad (lang : Lang) (pos : Pos) (name : Str) (tb : Table) : List (Str × Str) :=
+  let lemma := tb.ending
+  let entry : PosEntry := [("tab".toList, .str name)]
+  let lex : Lex := [(lemma, [(pos.name, entry)])]
+  match expandDeclension lang (genEnv lang).decl lemma pos.name (.str name) entry with
+  | .error _ => [(name, [])]
+  | .ok l => l.filterMap (fun p =>
+      if realizeExp (genEnv lang) lex none p.2 = .ok (p.1, 0) then none else some (name, p.1))
+
+def closedBadAll (lang : Lang) : List (Str × Str) :=
+  (genEnv lang).decl.flatMap (fun p => (closedPos p.1).flatMap (fun pos => closedBad lang pos p.1 p.2))
+
+/-- the (table, part of speech, lexicon gender) triples of the generated French tables on which `DistinctRows`
+    fails for a standard constructor state — the complete list: a noun of the stated FIXED gender would be listed
+    without options under a form whose first row in the table has the other gender (`genExp`'s last `else`;
+    n25: feminine plural `-s` behind the masculine one; n79, n91: masculine plural `-a` behind the feminine
+    singular `-a`; n88: feminine plural `-i`).  No lexicon entry has such a (table, gender) pair: the driver
+    evaluates `DistinctRows` on every real entry. -/
+def distinctExceptionsFr : List (Str × Decl.Pos × Option Decl.LV) :=
+  [("n25".toList, .N, some (.str "f".toList)), ("n79".toList, .N, some (.str "m".toList)),
+   ("n88".toList, .N, some (.str "f".toList)), ("n91".toList, .N, some (.str "m".toList))]
+
+/-- executable twin of `conj_wf_tbl` and `distinct_rows_tbl`: the table elements on which they fail -/
 def tblWitnesses : List String :=
-  (Gen.ConjEn.tables.filterMap (fun p => if wfConjEn p.2 then none else some ("conj-en:" ++ String.ofList p.1))) ++
-  (Gen.ConjFr.tables.filterMap (fun p => if wfConjFr p.2 then none else some ("conj-fr:" ++ String.ofList p.1)))
+  (Gen.ConjEn.tables.filterMap (fun p =>
+    if !(Gen.ConjEn.used.contains p.1) || wfConjEn p.2 then none else some ("conj-en:" ++ String.ofList p.1))) ++
+  (Gen.ConjFr.tables.filterMap (fun p =>
+    if !(Gen.ConjFr.used.contains p.1) || wfConjFr p.2 then none else some ("conj-fr:" ++ String.ofList p.1))) ++
+  ((distinctFailures .en Gen.DeclEn.tables).map (fun x =>
+    "decl-en:" ++ String.ofList x.1 ++ ":" ++ String.ofList x.2.1.name)) ++
+  (((distinctFailures .fr Gen.DeclFr.tables).filter (fun x => !(distinctExceptionsFr.contains (x.1, x.2.1, x.2.2.lexG)))).map
+    (fun x => "decl-fr:" ++ String.ofList x.1 ++ ":" ++ String.ofList x.2.1.name)) ++
+  (distinctExceptionsFr.filterMap (fun x =>
+    if ((distinctFailures .fr Gen.DeclFr.tables).map (fun y => (y.1, y.2.1, y.2.2.lexG))).contains x then none
+    else some ("decl-fr:stale-exception:" ++ String.ofList x.1))) ++
+  ((closedBadAll .en).map (fun x => "closed-en:" ++ String.ofList x.1 ++ ":" ++ String.ofList x.2)) ++
+  ((closedBadAll .fr).map (fun x => "closed-fr:" ++ String.ofList x.1 ++ ":" ++ String.ofList x.2))
 
 end Pyrealb.Lemmatize
